@@ -6,7 +6,6 @@ import (
 	"fmt"
 	"io"
 	"math"
-	"math/rand/v2"
 	"strings"
 
 	"verif/gen"
@@ -15,6 +14,9 @@ import (
 )
 
 func sp(s string) *string { return &s }
+
+// bs keeps escaped spellings out of reach of tools that rewrite backslash-u sequences.
+const bs = "\\"
 
 // optSets are the option sets of the exhaustive blocks and targeted families.
 var optSets = []ref.EncOpts{
@@ -37,19 +39,19 @@ var optSets = []ref.EncOpts{
 var alphabet = []ref.EncCall{
 	{K: "{"}, {K: "}"}, {K: "["}, {K: "]"},
 	{K: "s", S: []byte("a")},
-	{K: "v", S: []byte(`"a"`)},
+	{K: "v", S: []byte(`"` + bs + `u0061"`)}, // "a" by another spelling
 	{K: "n"},
 	{K: "i", N: 1},
 	{K: "s", S: []byte("<a\xff")},
 	{K: "v", S: []byte(" {\"b\":1,\"a\":[\"< \"]} ")},
-	{K: "v", S: []byte(`{"b":1,"b":2}`)},
+	{K: "v", S: []byte(`{"b":1,"` + bs + `u0062":2}`)}, // duplicate by another spelling
 	{K: "v", S: []byte(`[1,`)},
 	{K: "v", S: []byte(`"b" x`)},
 	{K: "v", S: []byte(` "b" `)},
 	{K: "z"},
 	{K: "d", N: math.Float64bits(math.NaN())},
-	{K: "rs", S: []byte(`"b"`)},
-	{K: "v", S: []byte(`["\ud800",1.0]`)},
+	{K: "rs", S: []byte(`"` + bs + `u0062"`)},      // raw token, "b" by another spelling
+	{K: "v", S: []byte(`["` + bs + `ud800",1.0]`)}, // lone surrogate escape
 	{K: "s", S: []byte("")},
 }
 
@@ -75,6 +77,9 @@ type seqArgs struct {
 	Opt    ref.EncOpts   `json:"opt"`
 	Writer string        `json:"writer"`
 	Calls  []ref.EncCall `json:"calls"`
+	// Ptr selects where StackPointer is observed: 0 after every call, 1 only at the end,
+	// n>1 after about every n-th call (a fixed pseudo-random subset, see execSeq)
+	Ptr int `json:"ptr"`
 }
 
 type towerArgs struct {
@@ -131,7 +136,16 @@ func execBlock(w *run.W, a *blockArgs) {
 		if z == k {
 			from = 0
 		}
-		if !r.runSeq(calls, libs, func(i int) bool { return i >= from }) && w.Replay {
+		okSeq := false
+		r.guarded(func() {
+			okSeq = r.runSeq(calls, libs, func(i int) int {
+				if i >= from {
+					return 2
+				}
+				return 0
+			})
+		})
+		if !okSeq && w.Replay {
 			break
 		}
 		n++
@@ -160,9 +174,23 @@ func execBlock(w *run.W, a *blockArgs) {
 func execSeq(w *run.W, a *seqArgs) {
 	r := newRunner(w, gstats)
 	r.configure(a.Opt, a.Writer, false)
-	r.runSeq(a.Calls, nil, func(int) bool { return true })
+	r.guarded(func() { r.runSeqRandom(a) })
 	w.Count("random_sequences", 1)
 	gstats.flush(w)
+}
+
+func (r *runner) runSeqRandom(a *seqArgs) {
+	r.runSeq(a.Calls, nil, func(i int) int {
+		switch {
+		case a.Ptr == 0:
+			return 2
+		case a.Ptr == 1:
+			return 1
+		case (uint64(i)*2654435761+uint64(a.Ptr)*40503)>>7%uint64(a.Ptr) == 0:
+			return 2
+		}
+		return 1
+	})
 }
 
 func towerCalls(a *towerArgs) []ref.EncCall {
@@ -204,7 +232,14 @@ func execTower(w *run.W, a *towerArgs) {
 	r.configure(a.Opt, a.Writer, false)
 	calls := towerCalls(a)
 	build := len(calls) - 45
-	r.runSeq(calls, nil, func(i int) bool { return i >= build || i%997 == 0 })
+	r.guarded(func() {
+		r.runSeq(calls, nil, func(i int) int {
+			if i >= build || i%997 == 0 {
+				return 2
+			}
+			return 0
+		})
+	})
 	w.Count("towers", 1)
 	gstats.flush(w)
 }
@@ -222,7 +257,7 @@ func nsCalls(a *nsArgs) []ref.EncCall {
 		calls = append(calls, ref.EncCall{K: "i", N: uint64(i)})
 	}
 	spell := func(s string) ref.EncCall {
-		esc := fmt.Sprintf(`"\u%04x%s"`, s[0], s[1:])
+		esc := fmt.Sprintf(`"%su%04x%s"`, bs, s[0], s[1:])
 		switch a.Spell {
 		case "escaped":
 			return ref.EncCall{K: "rs", S: []byte(esc)}
@@ -262,7 +297,7 @@ func nsCalls(a *nsArgs) []ref.EncCall {
 		spell(name(0)),
 		ref.EncCall{K: "}"},
 		ref.EncCall{K: "s", S: []byte("fresh2")},
-		spell(name(a.Members - 1)),
+		spell(name(a.Members-1)),
 		ref.EncCall{K: "s", S: []byte("fresh3")},
 		ref.EncCall{K: "t"},
 		ref.EncCall{K: "}"},
@@ -274,176 +309,16 @@ func execNS(w *run.W, a *nsArgs) {
 	r := newRunner(w, gstats)
 	r.configure(a.Opt, a.Writer, false)
 	calls := nsCalls(a)
-	r.runSeq(calls, nil, func(i int) bool { return i >= 2*a.Members-4 || i%16 == 0 })
+	r.guarded(func() {
+		r.runSeq(calls, nil, func(i int) int {
+			if i >= 2*a.Members-4 || i%16 == 0 {
+				return 2
+			}
+			return 1
+		})
+	})
 	w.Count("namespace_family", 1)
 	gstats.flush(w)
-}
-
-// ---------------------------------------------------------------------------------
-// random sequences
-
-var namePool = []string{"a", "b", "", "k", "a\xff", "a�", "é", "<", " ", "~/", "0", "1", "NaN"}
-
-var rawStringPool = func() [][]byte {
-	var out [][]byte
-	for _, s := range append([]string{`"a"`, `"b"`, `"k"`, `"a�"`, `"<"`, `" "`, "\" <\""}, gen.Strings...) {
-		if _, ok := ref.Unquote([]byte(s), true); ok {
-			out = append(out, []byte(s))
-		}
-	}
-	return out
-}()
-
-var rawNumberPool = func() [][]byte {
-	var out [][]byte
-	for _, s := range gen.Numbers {
-		if n := ref.Parse([]byte(s), ref.Opts{}); n != nil && n.Kind == ref.Number {
-			out = append(out, []byte(s))
-		}
-	}
-	return out
-}()
-
-var floatPool = []float64{0, math.Copysign(0, -1), 1, -1.5, 1e21, 1e20, 1e-6, 1e-7, 5e-324, math.MaxFloat64, math.NaN(), math.Inf(1), math.Inf(-1), 0.1, 3.4028235e38, 16777217}
-
-func randOpts(r *rand.Rand) ref.EncOpts {
-	var o ref.EncOpts
-	o.AllowDup = r.IntN(4) == 0
-	o.AllowInvUTF = r.IntN(3) == 0
-	indents := []string{"", " ", "\t", "  ", "\t ", "    "}
-	switch r.IntN(6) {
-	case 2:
-		o.Multiline = true
-	case 3:
-		o.Indent = sp(indents[r.IntN(len(indents))])
-	case 4:
-		o.Indent = sp(indents[r.IntN(len(indents))])
-		o.Prefix = sp(indents[r.IntN(len(indents))])
-	case 5:
-		o.Prefix = sp(indents[r.IntN(len(indents))])
-		o.Multiline = r.IntN(2) == 0
-	}
-	o.Colon = []int{0, 0, 1, -1}[r.IntN(4)]
-	o.Comma = []int{0, 0, 1, -1}[r.IntN(4)]
-	o.HTML = r.IntN(4) == 0
-	o.JS = r.IntN(4) == 0
-	o.Preserve = r.IntN(4) == 0
-	o.CanonInts = r.IntN(4) == 0
-	o.CanonFloats = r.IntN(4) == 0
-	if r.IntN(4) == 0 {
-		o.Reorder = true
-		o.AllowDup = false // the order of equal names after reordering is unspecified
-	}
-	return o
-}
-
-func pickB(r *rand.Rand, p [][]byte) []byte { return p[r.IntN(len(p))] }
-
-func randString(r *rand.Rand, big bool) []byte {
-	if big && r.IntN(3) == 0 {
-		ls := []int{30, 47, 48, 49, 63, 64, 95, 96, 97, 190, 200, 383, 384, 385, 700, 768, 1535, 1536, 3071, 3072, 3073, 5000}
-		l := ls[r.IntN(len(ls))] + r.IntN(3) - 1
-		return append([]byte(strings.Repeat("x", l)), byte('a'+r.IntN(26)))
-	}
-	return []byte(namePool[r.IntN(len(namePool))])
-}
-
-func randScalar(r *rand.Rand, big bool) ref.EncCall {
-	switch r.IntN(10) {
-	case 0:
-		return ref.EncCall{K: "n"}
-	case 1:
-		return ref.EncCall{K: "t"}
-	case 2:
-		return ref.EncCall{K: "f"}
-	case 3:
-		return ref.EncCall{K: "i", N: uint64([]int64{0, 1, -1, math.MaxInt64, math.MinInt64, 1 << 53, 42}[r.IntN(7)])}
-	case 4:
-		return ref.EncCall{K: "u", N: []uint64{0, 1, math.MaxUint64, 1 << 63}[r.IntN(4)]}
-	case 5:
-		return ref.EncCall{K: "d", N: math.Float64bits(floatPool[r.IntN(len(floatPool))])}
-	case 6:
-		return ref.EncCall{K: "e", N: uint64(math.Float32bits(float32(floatPool[r.IntN(len(floatPool))])))}
-	case 7:
-		return ref.EncCall{K: "rn", S: pickB(r, rawNumberPool)}
-	case 8:
-		return ref.EncCall{K: "rs", S: pickB(r, rawStringPool)}
-	}
-	return ref.EncCall{K: "s", S: randString(r, big)}
-}
-
-func randValue(r *rand.Rand, o ref.EncOpts) ref.EncCall {
-	cfg := &gen.TextCfg{MaxDepth: 1 + r.IntN(4), MaxWidth: 1 + r.IntN(5), Invalid: r.IntN(4) == 0, WS: r.IntN(2) == 0, DupPercent: r.IntN(25)}
-	b := gen.Value(r, cfg)
-	if r.IntN(4) == 0 {
-		b = gen.Mutate(r, b)
-	}
-	if r.IntN(5) == 0 {
-		b = append([]byte(" \n"), append(b, ' ')...)
-	}
-	return ref.EncCall{K: "v", S: b}
-}
-
-func randName(r *rand.Rand, big bool) ref.EncCall {
-	switch r.IntN(10) {
-	case 0, 1:
-		return ref.EncCall{K: "rs", S: pickB(r, rawStringPool)}
-	case 2, 3:
-		return ref.EncCall{K: "v", S: append([]byte(" "), pickB(r, rawStringPool)...)}
-	}
-	return ref.EncCall{K: "s", S: randString(r, big)}
-}
-
-func genSeq(r *rand.Rand, o ref.EncOpts, n int, big bool) []ref.EncCall {
-	m := ref.NewEncModel(o)
-	var calls []ref.EncCall
-	for len(calls) < n {
-		var c ref.EncCall
-		if r.IntN(4) != 0 {
-			// plausible in context
-			switch pos := m.Position(); {
-			case pos == "object-name":
-				if r.IntN(5) == 0 {
-					c = ref.EncCall{K: "}"}
-				} else {
-					c = randName(r, big)
-				}
-			default:
-				switch k := r.IntN(20); {
-				case k < 7:
-					c = randScalar(r, big)
-				case k < 9:
-					c = ref.EncCall{K: "{"}
-				case k < 11:
-					c = ref.EncCall{K: "["}
-				case k < 15 && pos == "array":
-					c = ref.EncCall{K: "]"}
-				case k < 15:
-					c = randScalar(r, big)
-				default:
-					c = randValue(r, o)
-				}
-			}
-		} else {
-			switch k := r.IntN(12); {
-			case k < 4:
-				c = ref.EncCall{K: []string{"{", "}", "[", "]"}[k]}
-			case k < 6:
-				c = randScalar(r, big)
-			case k < 8:
-				c = randValue(r, o)
-			case k == 8:
-				c = ref.EncCall{K: "z"}
-			case k == 9:
-				c = ref.EncCall{K: "s", S: []byte{'a', 0xff, 0xc3}}
-			default:
-				c = randName(r, big)
-			}
-		}
-		m.Apply(c)
-		calls = append(calls, c)
-	}
-	return calls
 }
 
 // ---------------------------------------------------------------------------------
@@ -451,10 +326,17 @@ func genSeq(r *rand.Rand, o ref.EncOpts, n int, big bool) []ref.EncCall {
 // grammar part of the model against the token reader of encoding/json.
 
 func selfTest() error {
+	// the alphabet must really contain escaped spellings (they are easy to lose when
+	// source text passes through tools that decode backslash-u sequences)
+	for _, i := range []int{5, 10, 16, 17} {
+		if !bytes.Contains(alphabet[i].S, []byte{'\\', 'u'}) {
+			return fmt.Errorf("alphabet symbol %d %q lost its escaped spelling", i, alphabet[i].S)
+		}
+	}
 	r := run.SelfRand(6)
 	cfg := &gen.TextCfg{MaxDepth: 4, MaxWidth: 4, WS: true, DupPercent: 5}
 	for i := 0; i < 5000; i++ {
-		text := gen.Value(r, cfg)
+		text := bytes.TrimRight(gen.Value(r, cfg), " \t\r\n") // Indent copies trailing white space
 		if !stdjson.Valid(text) {
 			continue
 		}
@@ -551,7 +433,7 @@ func selfTest() error {
 var M = &run.Monitor{
 	ID:    "C06",
 	Level: "exploration",
-	Rule: "call sequences over WriteToken/WriteValue: (a) exhaustive — every sequence of 4 (quick) / 5 (thorough) symbols of a 19-symbol call alphabet " +
+	Rule: "call sequences over WriteToken/WriteValue: (a) exhaustive — every sequence of 4 symbols (thorough: 5 after the three shortest contexts) of a 19-symbol call alphabet " +
 		"(all token kinds, \"\", names colliding by different spellings, ill-formed UTF-8, raw values valid/truncated/with trailing garbage/duplicate-bearing/needing re-spelling, zero Token) " +
 		"after each of 6 context prefixes under 11 option sets; (b) random sequences of 1-40 calls with random option sets, big tokens around flush thresholds, both writer kinds; " +
 		"(c) depth towers 9997-10000 probed with tokens and nested raw values; (d) objects of 2-130 names around the 64-name/1KiB namespace switch probed with re-spelled duplicates. " +
@@ -572,18 +454,22 @@ var M = &run.Monitor{
 		need("calls", 1000000)
 		need("accepted", 300000)
 		need("rejected", 300000)
-		need("seq_accept_after_reject", 10000)
+		need("seq_accept_after_reject", 100000)
 		need("depth0_byte_compares", 50000)
 		need("finalized", 50000)
 		need("state_compares", 300000)
 		need("exhaustive_sequences", 300000)
 		need("random_sequences", 1000)
-		need("towers", 4)
+		need("towers", 1)
 		need("namespace_family", 50)
 		for _, r := range []string{ref.RejNeedName, ref.RejDupName, ref.RejMismatch, ref.RejMissingValue, ref.RejInvalidUTF8, ref.RejInvalidRaw, ref.RejRawDup, ref.RejRawUTF8, ref.RejZeroToken} {
 			need("reject_"+r, 1000)
 		}
-		need("reject_"+ref.RejMaxDepth, 20)
+		need("reject_"+ref.RejMaxDepth, 15)
+		need("pointer_compares", 300000)
+		if c["hooks_available"] > 0 {
+			need("internal_stack_checks", 300000)
+		}
 		return u
 	},
 	SelfTest: selfTest,
@@ -637,13 +523,13 @@ func generate(w *run.W) {
 		}
 		r := w.Rand("seq", batch)
 		for k := 0; k < 50; k++ {
-			o := randOpts(r)
+			o := gen.RandEncOpts(r)
 			big := r.IntN(3) == 0
 			n := 1 + r.IntN(40)
 			if big {
 				n = 10 + r.IntN(50)
 			}
-			a := &seqArgs{Opt: o, Writer: []string{"opaque", "buffer"}[r.IntN(2)], Calls: genSeq(r, o, n, big)}
+			a := &seqArgs{Opt: o, Writer: []string{"opaque", "buffer"}[r.IntN(2)], Calls: gen.EncSeq(r, o, n, big), Ptr: []int{0, 1, 1, 3, 7}[r.IntN(5)]}
 			w.Do("seq", a)
 			if w.WantSample() && n < 12 {
 				var ss []string
@@ -656,10 +542,13 @@ func generate(w *run.W) {
 	}
 
 	// (a) exhaustive blocks
-	l := w.Pick(4, 5)
 	bi := 0
 	for oi := range optSets {
 		for ci := range contexts {
+			l := 4
+			if w.Thorough() && ci < 3 {
+				l = 5 // the three one-call-or-less contexts get the longer enumeration
+			}
 			for first := range alphabet {
 				bi++
 				if w.Mine(bi) {
